@@ -31,6 +31,7 @@ func cmdReplay(args []string) int {
 	case "C18":
 		b := NewBuild("race", "plain")
 		rc := newRefCache(b, "plain")
+		rc.sortMaps = true
 		recur = hasSigC18(b, &rp.Run, rc, rp.Signature)
 	case "C10":
 		recur = replayC10(&rp)
